@@ -68,6 +68,32 @@ def main() -> int:
         ctx.cleanup()
 
 
+class PhaseTimeout(Exception):
+    pass
+
+
+class phase_limit:
+    """wall-clock bound for one phase (a hang of the code under test must end in a verdict, not in silence)"""
+
+    def __init__(self, ctx: Ctx, name: str):
+        import signal
+        self.signal = signal
+        base = 2400 if ctx.tier == 'quick' else 4 * 3600
+        self.secs = int(os.environ.get('VERIF_PHASE_LIMIT', base))
+        self.name = name
+
+    def __enter__(self) -> 'phase_limit':
+        def on_alarm(_s: int, _f: Any) -> None:
+            raise PhaseTimeout(f'{self.name} exceeded {self.secs}s')
+        self.old = self.signal.signal(self.signal.SIGALRM, on_alarm)
+        self.signal.alarm(self.secs)
+        return self
+
+    def __exit__(self, *a: Any) -> None:
+        self.signal.alarm(0)
+        self.signal.signal(self.signal.SIGALRM, self.old)
+
+
 def run_property(mod: Any, ctx: Ctx, args: Any, t0: float) -> int:
     prop = ctx.prop
     props_mods: List[str] = list(mod.LEAN_PROPS)
@@ -117,9 +143,16 @@ def run_property(mod: Any, ctx: Ctx, args: Any, t0: float) -> int:
     corr_broken: List[str] = []
     if hasattr(mod, 'correspondence') and not failing:
         try:
-            corr = mod.correspondence(ctx)
+            with phase_limit(ctx, 'correspondence'):
+                corr = mod.correspondence(ctx)
         except DriverBroken as e:
             corr_broken.append(f'driver: {e}')
+        except Exception as e:
+            # the harness could not complete against this tree (the code under test hangs, crashes the rig, or
+            # changed shape): the tie is not shown to hold.  On the unchanged tree this is a broken check either way.
+            traceback.print_exc()
+            corr_broken.append(f'harness-could-not-complete:{type(e).__name__}')
+            corr.notes.append(f'correspondence aborted: {type(e).__name__}: {str(e)[:300]}')
         for d in corr.disagreements:
             corr_broken.append(d.name)
             ctx.suspects.append(d.case)
@@ -132,7 +165,13 @@ def run_property(mod: Any, ctx: Ctx, args: Any, t0: float) -> int:
     if hasattr(mod, 'oracle'):
         if broken:
             ctx.escalated = True
-        orc = mod.oracle(ctx)
+        try:
+            with phase_limit(ctx, 'oracle'):
+                orc = mod.oracle(ctx)
+        except Exception as e:
+            traceback.print_exc()
+            broken.append(f'oracle:harness-could-not-complete:{type(e).__name__}')
+            orc.notes.append(f'oracle aborted: {type(e).__name__}: {str(e)[:300]}')
 
     # 6. verdict --------------------------------------------------------------
     known = vlib.load_known_findings(prop)
